@@ -877,6 +877,82 @@ pub fn family_kkx(wk_range: std::ops::Range<u8>) -> Vec<Pos> {
     out
 }
 
+/// King-ray product family: the mover's king on d4 (mirrored: d5 for black) and, independently on each of
+/// the eight rays from it, one configuration out of an alphabet — nothing; an enemy slider that does not
+/// attack along this ray (bishop on a file/rank, rook on a diagonal) at distance 2; two of them at distances
+/// 2 and 3; an own knight at distance 1 pinned by the right slider at distance 2; (thorough) an own queen at
+/// distance 1 pinned by an enemy queen at distance 3; a pinned knight with a further slider behind the pinner;
+/// a plain check from distance 2. Every combination: up to eight simultaneous pins, two pins on one line, up
+/// to sixteen enemy sliders around the king. `first` fixes the configuration of the first two rays (work item).
+pub fn family_king_rays(color: u8, n_cfg: usize, first: usize) -> Vec<Pos> {
+    const DIRS: [(i8, i8); 8] = [(0, 1), (1, 1), (1, 0), (1, -1), (0, -1), (-1, -1), (-1, 0), (-1, 1)];
+    let king = rules::sq_at(3, 3).unwrap(); // d4: three squares to the edge in every direction
+    let own = rules::WHITE;
+    let en = rules::BLACK;
+    let mut out = Vec::new();
+    let total = n_cfg.pow(6);
+    for rest in 0..total {
+        let mut cfgs = [0usize; 8];
+        cfgs[0] = first / n_cfg;
+        cfgs[1] = first % n_cfg;
+        let mut x = rest;
+        for c in cfgs.iter_mut().skip(2) {
+            *c = x % n_cfg;
+            x /= n_cfg;
+        }
+        let mut p = Pos::empty();
+        p.b[king as usize] = rules::pc(own, rules::K);
+        p.b[rules::sq_from_name("a8").unwrap() as usize] = rules::pc(en, rules::K);
+        for (d, &(df, dr)) in DIRS.iter().enumerate() {
+            let sq = |k: i8| rules::sq_at(3 + df * k, 3 + dr * k).unwrap() as usize;
+            let diagonal = df != 0 && dr != 0;
+            let right = rules::pc(en, if diagonal { rules::B } else { rules::R });
+            let wrong = rules::pc(en, if diagonal { rules::R } else { rules::B });
+            match cfgs[d] {
+                0 => {}
+                1 => p.b[sq(2)] = wrong,
+                2 => {
+                    p.b[sq(2)] = wrong;
+                    p.b[sq(3)] = wrong;
+                }
+                3 => {
+                    p.b[sq(1)] = rules::pc(own, rules::N);
+                    p.b[sq(2)] = right;
+                }
+                4 => {
+                    p.b[sq(1)] = rules::pc(own, rules::Q);
+                    p.b[sq(3)] = rules::pc(en, rules::Q);
+                }
+                5 => {
+                    p.b[sq(1)] = rules::pc(own, rules::N);
+                    p.b[sq(2)] = right;
+                    p.b[sq(3)] = wrong;
+                }
+                _ => p.b[sq(2)] = right,
+            }
+        }
+        // material a game can produce: at most 15 men beside the king, at most 8 of them promoted
+        let mut ok = true;
+        for c in [own, en] {
+            let cnt = |k: u8| p.count(rules::pc(c, k)) as i32;
+            let men = cnt(rules::Q) + cnt(rules::R) + cnt(rules::B) + cnt(rules::N);
+            let promoted = (cnt(rules::Q) - 1).max(0) + (cnt(rules::R) - 2).max(0) + (cnt(rules::B) - 2).max(0) + (cnt(rules::N) - 2).max(0);
+            if men > 15 || promoted > 8 {
+                ok = false;
+            }
+        }
+        if !ok {
+            continue;
+        }
+        p.stm = own;
+        let q = if color == rules::WHITE { p } else { p.mirror() };
+        if q.is_legal_position() {
+            out.push(q);
+        }
+    }
+    out
+}
+
 /// two further pieces (thorough): wk fixed per work item
 pub fn family_kkxy(wk: u8, bk: u8) -> Vec<Pos> {
     let mut out = Vec::new();
@@ -1433,6 +1509,17 @@ pub fn run(rep: &Report, focus: Focus) -> E1Result {
         if !focus.eval_purity {
         run_family("promo+rights (as promo, enemy king and rook(s) at home with castling rights; followed one ply further so that castling right after a promotion occurs)", items_r, if quick { 1 } else { 2 });
         }
+    }
+    // pins and sliders all round the king (the legality filter's hardest input), complete product
+    if !focus.skip_kkx && !focus.eval_purity && !focus.keys {
+        let n_cfg: usize = if quick { 4 } else { 7 };
+        let mut items: Vec<Item> = Vec::new();
+        for c in [rules::WHITE, rules::BLACK] {
+            for first in 0..n_cfg * n_cfg {
+                items.push(Box::new(move || family_king_rays(c, n_cfg, first)));
+            }
+        }
+        run_family("king-rays (king on d4/d5, each of the eight rays independently: empty, harmless slider(s), pinned knight, pinned queen, pin with a slider behind, check)", items, 0);
     }
     if !quick && std::env::var("WMC_KKXY").is_ok() {
         let items: Vec<Item> = (0..64u32 * 64).map(|i| Box::new(move || family_kkxy((i / 64) as u8, (i % 64) as u8)) as Item).collect();
